@@ -128,7 +128,8 @@ Definition get_uplink_channel_index (s : st) (f : Z) (default : bool) : outcome 
   | None => Err
   end.
 
-(* band.go:370-393: loop over defaultChannel in [true; false] *)
+(* band.go GetUplinkChannelIndexForFrequencyDR BEFORE fix for finding C15-6: only the
+   first default and the first custom channel with the frequency were examined *)
 Fixpoint index_for_freq_dr_loop (s : st) (f dr : Z) (defaults : list bool) : outcome Z :=
   match defaults with
   | [] => Err
@@ -146,8 +147,23 @@ Fixpoint index_for_freq_dr_loop (s : st) (f dr : Z) (defaults : list bool) : out
     end
   end.
 
-Definition get_uplink_channel_index_for_frequency_dr (s : st) (f dr : Z) : outcome Z :=
+Definition get_uplink_channel_index_for_frequency_dr_prefix (s : st) (f dr : Z) : outcome Z :=
   index_for_freq_dr_loop s f dr [true; false].
+
+(* band.go GetUplinkChannelIndexForFrequencyDR (after the fix): for defaultChannel in
+   [true; false], the first channel with that frequency, of that class, whose data-rate
+   range contains dr *)
+Definition freq_dr_class (f dr : Z) (default : bool) (c : channel) : bool :=
+  (freq c =? f) && negb (Bool.eqb (custom c) default) && (minDR c <=? dr) && (maxDR c >=? dr).
+
+Definition get_uplink_channel_index_for_frequency_dr (s : st) (f dr : Z) : outcome Z :=
+  match find_index (freq_dr_class f dr true) (up s) 0 with
+  | Some i => Ok i
+  | None => match find_index (freq_dr_class f dr false) (up s) 0 with
+            | Some i => Ok i
+            | None => Err
+            end
+  end.
 
 (* indices (from [k]) of the elements satisfying [p], ascending *)
 Fixpoint indices_where {A} (p : A -> bool) (l : list A) (k : Z) : list Z :=
